@@ -423,6 +423,53 @@ def run_v0(shard):
     return acc
 
 
+def run_limits(shard):
+    """molecules at the format limits: 4095 atoms; connection table beyond byte 65535"""
+    from chython import MoleculeContainer
+    n, k = shard
+    acc = Acc()
+    bad = mkbad(acc)
+    table = ci()
+    m = MoleculeContainer()
+    for i in range(1, n + 1):
+        m.add_atom('C', i, _skip_calculation=True)
+    for i in range(1, n + 1):
+        for d in range(1, k + 1):
+            if i + d <= n:
+                m.add_bond(i, i + d, (1, 2, 3, 4, 8)[(i + d) % 5], _skip_calculation=True)
+    for _, a in m.atoms():
+        a._implicit_hydrogens = 0
+        a._neighbors = a._heteroatoms = a._explicit_hydrogens = 0
+        a._hybridization = 1
+        a._in_ring = False
+        a._ring_sizes = set()
+    for *_, b in m.bonds():
+        b._in_ring = False
+    tag = '%d atoms, each bonded to the next %d (%d bonds)' % (n, k, m.bonds_count)
+    acc.states += 1
+    acc.transitions += 3
+    try:
+        data = m.pack(compressed=False)
+        exp = pack_ref.encode(pack_ref.plain_from_chython(m, table))
+        if data != exp:
+            bad('pack bytes differ from the published layout', mol=tag)
+        if MoleculeContainer.pack_len(data, compressed=False) != n:
+            bad('pack_len differs from atom count', mol=tag)
+        u = MoleculeContainer.unpack(data, compressed=False, skip_labels_calculation=True)
+        if pack_ref.raw_state(u) != pack_ref.raw_state(m):
+            bad('unpack(pack(m)) differs from m (bonds/neighbour order)', mol=tag)
+        acc.outcomes['limit molecule round trip'] += 1
+    except Exception as e:
+        if type(e).__name__ == 'ModelLimit':
+            # a C loop variable cannot hold the value: what a compiled unpacker does here is outside the model -> not judged
+            acc.caps.append('model limit on %s: %s' % (tag, e))
+            acc.info['inconclusive (ModelLimit): ' + str(e)[:80]] += 1
+        else:
+            bad('limit molecule raised %s' % type(e).__name__, mol=tag)
+    acc.sample({'limit molecule': tag})
+    return acc
+
+
 def plan(tier, seed):
     st = [Stage('atom numbers 1..4095', run_fields, [('numbers', a, min(a + 256, 4096)) for a in range(1, 4096, 256)], 'every atom number on 1- and 2-atom molecules'),
           Stage('shared bytes', run_fields, [('bytes', z, z + 1) for z in (range(1, 119) if tier == 'thorough' else list(range(1, 119, 3)) + [118])],
@@ -434,6 +481,7 @@ def plan(tier, seed):
           Stage('stereo family + corpus', run_text, [(k, 32, tier) for k in range(32)], 'ring/double-bond stereo family, polyenes/allenes, corpus stride %d; aromatic and Kekule' % (8 if tier == 'quick' else 1)),
           Stage('reactions', run_reactions, [0], '(reactants, reagents, products) in {0..3}^3 and 255 per role; bytes, unpack, pack_len, dispatcher'),
           Stage('published packs (conformance)', run_published, [(k, 32, tier) for k in range(32)], 'pach/SI.zip stride %d: decode, re-encode identical, same structure as CSV row' % (4 if tier == 'quick' else 1)),
+          Stage('format limits', run_limits, [(4095, 1), (4095, 2), (4000, 3)], '4095-atom chain, 4095 atoms x 2 forward bonds (order block ends below byte 65535), 4000 atoms x 3 forward bonds (connection table beyond byte 65535)'),
           Stage('version-0 packs', run_v0, [0], '13 legacy-layout packs from the independent writer through both entry points')]
     return st
 
